@@ -473,31 +473,68 @@ def from_notes_rows(ctx: Ctx) -> None:
         ctx.expect("R-TABLE", pr, "each note's text is written at its column", okc, src(st), f"{src(st)}", node=st)
         ws = [c for c in method_calls(pr, "write")]
         texts = [src(c.args[0]) for c in ws if c.args]
-        okw = len(ws) == 2 and texts[0] == f"''.join({cells})" and try_ev(ctx, pr, ws[1].args[0]) == "\n"
+        # what is written, concatenated over the write calls (one call or several): ''.join(cells) + "\n"
+        from .common import string_parts as _sp
+        seq = []
+        okw = bool(ws)
+        for c in ws:
+            parts = _sp(c.args[0]) if len(c.args) == 1 else None
+            if parts is None:
+                okw = False
+                break
+            for k_, x_ in parts:
+                if k_ == "lit":
+                    if seq and seq[-1][0] == "lit":
+                        seq[-1] = ("lit", seq[-1][1] + x_)
+                    else:
+                        seq.append(("lit", x_))
+                else:
+                    seq.append(("expr", ast.unparse(x_.value if isinstance(x_, ast.FormattedValue) else x_)))
+        okw = okw and seq == [("expr", f"''.join({cells})"), ("lit", "\n")]
         ctx.expect("R-TABLE", pr, "a row is its cells joined, then a line break", okw, str(texts), f"row writes: {texts}", node=pr.node)
     # Note.__str__ : type character + [index] iff keysound_index is not None
     ns = p.func("simfile.notes:Note.__str__")
     sn = ns.param_names()[0]
-    from ..decide import decisions, judge_table, symbolic_return
     from .common import string_parts
+    from .tables import function_decs as _fd, judge as _tj, sums_of as _ts
 
-    def outcome(d):
-        v = symbolic_return(d)
-        parts = string_parts(v) if v is not None else None
+    def nout(s_):
+        k_, v = s_.terminal()
+        parts = string_parts(v) if (k_ == "return" and v is not None) else None
         if parts is None:
             return "?"
-        return "".join(x if k == "lit" else "{" + ast.unparse(x) + "}" for k, x in parts)
+        def bare(x):
+            x = x.value if isinstance(x, ast.FormattedValue) else x
+            while isinstance(x, ast.Call) and isinstance(x.func, ast.Name) and x.func.id == "str" and len(x.args) == 1 and not x.keywords:
+                x = x.args[0]  # str(x) inside a string is x formatted
+            return ast.unparse(x)
 
+        return "".join(x if k == "lit" else "{" + bare(x) + "}" for k, x in parts)
+
+    KN = f"{sn}.keysound_index is None"
+    ndecs = _fd(_ts(ctx, ns), nout)
     from ..decide import key as _k
-    decs_ = decisions(ctx, ns)
-    used = {k for d in decs_ for k in d.assign if "keysound_index" in k}
-    want = _k(f"{sn}.keysound_index is None")
-    if used and used != {want}:
+    used = {k for d in ndecs for k in d.assign if "keysound_index" in k}
+    if used and used != {_k(KN)}:
         ctx.bad("R-TABLE", ns, "the keysound index is tested with 'is None'", f"the test is {sorted(used)}: a keysound index of 0 would be written without its bracket", node=ns.node)
         return
-    judge_table(ctx, "R-TABLE", ns, "a cell is the type character plus '[index]' iff the note has a keysound index", decs_,
-                [f"{sn}.keysound_index is None"],
-                lambda a: "{" + sn + ".note_type}" if a[f"{sn}.keysound_index is None"] else "{" + sn + ".note_type}[{" + sn + ".keysound_index}]", outcome)
+    _tj(ctx, "R-TABLE", ns, "a cell is the type character plus '[index]' iff the note has a keysound index", ndecs, [KN],
+        lambda a: OneOfStr("{" + sn + ".note_type}", "{" + sn + ".note_type.value}") if a[KN] else OneOfStr("{" + sn + ".note_type}[{" + sn + ".keysound_index}]", "{" + sn + ".note_type.value}[{" + sn + ".keysound_index}]"))
+
+
+class OneOfStr(str):
+    def __new__(cls, *alts):
+        o = str.__new__(cls, alts[0])
+        o.alts = tuple(alts)
+        return o
+
+    def __eq__(self, other):
+        return other in self.alts
+
+    def __ne__(self, other):
+        return other not in self.alts
+
+    __hash__ = str.__hash__
 
 
 def callee_name_of(c: ast.Call) -> str:
@@ -795,44 +832,47 @@ def ungroup_order(ctx: Ctx) -> None:
 
 
 def timed_rules(ctx: Ctx) -> None:
-    """C13.3/5: only taps become fakes; kept notes are the same object; one loop, order preserved."""
+    """C13.3/5: per note, in stream order: hittable or KEEP_NOTE -> the same note with its time; an unhittable TAP under TAP_TO_FAKE -> a fake that differs
+    in nothing but the type; otherwise nothing.  One engine built from the caller's timing data, one pass, no sorting or buffering."""
     p = ctx.p
     f = p.func("simfile.notes.timed:time_notes")
-    loops = [lp for lp in for_loops(f) if isinstance(lp.iter, ast.Name) and lp.iter.id == f.param_names()[0]]
-    lp = one(loops, f"note loop of {f.fq}")
-    nv = lp.target.id
-    cons = record_constructions(ctx, f, "simfile.notes.timed.TimedNote")
-    ctx.floor("TimedNote constructions", len(cons), 2)
-    engs = [n for n, bs in locals_of(f).b.items() for b in bs if b.kind == "assign" and isinstance(b.value, ast.Call) and callee_name(ctx, f, b.value) == "simfile.timing.engine.TimingEngine"]
-    E = one(engs, f"TimingEngine local in {f.fq}")
-    n_same = n_fake = 0
-    for c in cons:
-        fm = field_map(ctx, "simfile.notes.timed.TimedNote", c)
-        t, n = fm.get("time"), fm.get("note")
-        okt = isinstance(t, ast.Call) and ast.unparse(t) == f"{E}.time_at({nv}.beat)"
-        ctx.expect("R-TABLE", f, f"TimedNote time is the time of the note's beat (default tag)", okt, "", f"time={src(t) if t is not None else 'absent'}", node=c)
-        fs = facts(ctx, f, c)
-        if isinstance(n, ast.Name) and n.id == nv:
-            n_same += 1
-            want = any(pol and isinstance(a, ast.BoolOp) and isinstance(a.op, ast.Or) and sorted(ast.unparse(v) for v in a.values) ==
-                       sorted([f"{E}.hittable({nv}.beat)", "unhittable_notes == UnhittableNotes.KEEP_NOTE"]) for a, pol in fs) and len(fs) == 1
-            ctx.expect("R-ORDER", f, "a note is passed on unchanged exactly when hittable or KEEP_NOTE", want, unparse_facts(fs), f"unchanged note emitted under {unparse_facts(fs)}", node=c)
-        else:
-            n_fake += 1
-            tap = any(pol and ast.unparse(a) == f"{nv}.note_type == NoteType.TAP" for a, pol in fs)
-            mode = any(pol and ast.unparse(a) == "unhittable_notes == UnhittableNotes.TAP_TO_FAKE" for a, pol in fs)
-            unh = any((not pol) and isinstance(a, ast.BoolOp) and f"{E}.hittable({nv}.beat)" in [ast.unparse(v) for v in a.values] for a, pol in fs) or \
-                any((not pol) and ast.unparse(a) == f"{E}.hittable({nv}.beat)" for a, pol in fs)
-            ctx.expect("R-ORDER", f, "a fake is built only for an unhittable TAP under TAP_TO_FAKE", tap and mode and unh, unparse_facts(fs), f"fake built under {unparse_facts(fs)}", node=c)
-    ctx.expect("R-ORDER", f, "one pass-through site and one fake site", (n_same, n_fake) == (1, 1), f"{n_same}/{n_fake}", f"{n_same} pass-through, {n_fake} rebuilt", node=lp)
-    ys = [n for n in body_walk(f.node) if isinstance(n, (ast.Yield, ast.YieldFrom))]
-    oky = all(isinstance(y, ast.Yield) and y.value in cons and in_body(lp, y) for y in ys) and len(ys) == len(cons)
+    from .tables import Dec, closed, closed_text, judge as tjudge, sums_of as tsums
+    sums = tsums(ctx, f)
+    nd, td, un = f.param_names()[:3]
+    engs = {e.target.id for s_ in sums for e in s_.effects if e.kind == "bind" and isinstance(e.target, ast.Name) and isinstance(e.value, ast.Call) and ast.unparse(e.value.func) == "TimingEngine"}
+    E = one(sorted(engs), f"TimingEngine local in {f.fq}")
+    eng_vals = {ast.unparse(e.value) for s_ in sums for e in s_.effects if e.kind == "bind" and isinstance(e.target, ast.Name) and e.target.id == E}
+    ctx.expect("R-FWD", f, "the engine is built from the caller's timing data, once, before the notes are walked", eng_vals == {f"TimingEngine({td})"} and
+               all(not e.loops for s_ in sums for e in s_.effects if e.kind == "bind" and isinstance(e.target, ast.Name) and e.target.id == E), str(sorted(eng_vals)), f"engine: {sorted(eng_vals)}", node=f.node)
+    loops = {(ast.unparse(e.target), e.line) for s_ in sums for e in s_.effects if e.kind == "for" and ast.unparse(e.value) == nd}
+    allloops = {e.line for s_ in sums for e in s_.effects if e.kind == "for"}
     srt = [c for c in calls(f) if isinstance(c.func, ast.Name) and c.func.id in ("sorted", "reversed", "list")]
-    ctx.expect("R-ORDER", f, "notes are emitted in stream order: one loop, yields only, no sorting or buffering", oky and not srt and len(for_loops(f)) == 1, "", "", node=lp)
-    eng = [b for b in locals_of(f).b.get(E, []) if b.kind == "assign"]
-    oke = len(eng) == 1 and isinstance(eng[0].value, ast.Call) and callee_name(ctx, f, eng[0].value) == "simfile.timing.engine.TimingEngine" \
-        and len(eng[0].value.args) == 1 and isinstance(eng[0].value.args[0], ast.Name) and eng[0].value.args[0].id == f.param_names()[1]
-    ctx.expect("R-FWD", f, "the engine is built from the caller's timing data", oke, "", "", node=f.node)
+    ctx.expect("R-ORDER", f, "notes are emitted in stream order: one loop over the note data, yields only, no sorting or buffering", len(loops) == 1 and len(allloops) == 1 and not srt, str(sorted(loops)),
+               f"loops: {sorted(loops)} of {len(allloops)}; sorting/buffering calls: {[src(c, 30) for c in srt]}", node=f.node)
+    if not (len(loops) == 1 and len(allloops) == 1):
+        return
+    nv, line = next(iter(loops))
+    H, K, F, T = f"{E}.hittable({nv}.beat)", f"{un} == UnhittableNotes.KEEP_NOTE", f"{un} == UnhittableNotes.TAP_TO_FAKE", f"{nv}.note_type == NoteType.TAP"
+    TIME = f"{E}.time_at({nv}.beat)"
+    FAKE = f"Note(beat={nv}.beat, column={nv}.column, note_type=NoteType.FAKE, player={nv}.player, keysound_index={nv}.keysound_index)"
+    decs = []
+    for s_ in sums:
+        if not any(e.kind == "for" and e.line == line for e in s_.effects):
+            continue
+        eff = [e for e in s_.effects if line in e.loops and e.kind in ("yield", "yieldfrom", "return", "raise", "break")]
+        decs.append(Dec(dict(s_.atoms_in(line)), tuple(closed_text(s_, e, keep=[E, nv]) for e in eff), s_))
+
+    def spec(a):
+        if a[H] or a[K]:
+            return (f"yield TimedNote(time={TIME}, note={nv})",)
+        if a[F] and a[T]:
+            return (f"yield TimedNote(time={TIME}, note={FAKE})",)
+        return ()
+
+    tjudge(ctx, "R-ORDER", f, "a note is passed on unchanged (same object, with the time of its beat) exactly when hittable or KEEP_NOTE; an unhittable TAP under TAP_TO_FAKE becomes a fake "
+           "that differs in nothing but the type; every other unhittable note is dropped", decs, [H, K, F, T], spec,
+           equiv={f"{un} == UnhittableNotes.DROP_NOTE": (F, False)} if False else None)
+    ctx.floor("paths through the note loop of time_notes", len(decs), 3)
 
 
 def columns_rule(ctx: Ctx) -> None:
